@@ -210,7 +210,7 @@ Theorem valid_referrer_complete E blobs ms d s rd :
   In d ms -> names E blobs d s rd -> filed (v_resp (valid_referrer E blobs ms)) s rd.
 Proof.
   intros Hin [b [raw [Hb [Hd Hr]]]]. unfold valid_referrer. simpl.
-  generalize (mkV true "" []). induction ms as [|x r IH]; intros st; [destruct Hin|].
+  generalize (mkV true "" [] []). induction ms as [|x r IH]; intros st; [destruct Hin|].
   simpl. destruct Hin as [->|Hin].
   - apply fold_valid_keeps_filed. unfold valid_step. rewrite Hb, Hd, Hr. simpl. apply rappend_adds.
   - apply IH. exact Hin.
